@@ -1025,12 +1025,13 @@ func (tx *Transaction) ReadRequestBodyFrom(r io.Reader) (*types.Interruption, in
 			}
 
 			if tx.WAF.RequestBodyLimitAction == types.BodyLimitActionProcessPartial {
-				writingBytes = tx.RequestBodyLimit - tx.requestBodyBuffer.length
+				writingBytes = max(tx.RequestBodyLimit-tx.requestBodyBuffer.length, 0)
 				runProcessRequestBody = true
 			}
 		}
 	} else {
-		writingBytes = tx.RequestBodyLimit - tx.requestBodyBuffer.length
+		// ctl:requestBodyLimit may have lowered the limit below what is already buffered
+		writingBytes = max(tx.RequestBodyLimit-tx.requestBodyBuffer.length, 0)
 	}
 
 	w, err := io.CopyN(tx.requestBodyBuffer, r, writingBytes)
@@ -1038,7 +1039,7 @@ func (tx *Transaction) ReadRequestBodyFrom(r io.Reader) (*types.Interruption, in
 		return nil, int(w), err
 	}
 
-	if tx.requestBodyBuffer.length == tx.RequestBodyLimit {
+	if tx.requestBodyBuffer.length >= tx.RequestBodyLimit {
 		tx.variables.inboundDataError.Set("1")
 		if tx.WAF.RequestBodyLimitAction == types.BodyLimitActionReject {
 			return setAndReturnBodyLimitInterruption(tx, 413)
@@ -1281,12 +1282,13 @@ func (tx *Transaction) ReadResponseBodyFrom(r io.Reader) (*types.Interruption, i
 			}
 
 			if tx.WAF.ResponseBodyLimitAction == types.BodyLimitActionProcessPartial {
-				writingBytes = tx.ResponseBodyLimit - tx.responseBodyBuffer.length
+				writingBytes = max(tx.ResponseBodyLimit-tx.responseBodyBuffer.length, 0)
 				runProcessResponseBody = true
 			}
 		}
 	} else {
-		writingBytes = tx.ResponseBodyLimit - tx.responseBodyBuffer.length
+		// ctl:responseBodyLimit may have lowered the limit below what is already buffered
+		writingBytes = max(tx.ResponseBodyLimit-tx.responseBodyBuffer.length, 0)
 	}
 
 	w, err := io.CopyN(tx.responseBodyBuffer, r, writingBytes)
@@ -1294,7 +1296,7 @@ func (tx *Transaction) ReadResponseBodyFrom(r io.Reader) (*types.Interruption, i
 		return nil, int(w), err
 	}
 
-	if tx.responseBodyBuffer.length == tx.ResponseBodyLimit {
+	if tx.responseBodyBuffer.length >= tx.ResponseBodyLimit {
 		tx.variables.outboundDataError.Set("1")
 		if tx.WAF.ResponseBodyLimitAction == types.BodyLimitActionReject {
 			return setAndReturnBodyLimitInterruption(tx, 500)
